@@ -392,16 +392,220 @@ def pred_wsum(chk, case, r, keys, n):
 
 
 # =====================================================================================================
+# (A2) the rest of the public surface of WeightedTensor, on the real classes only (no model): every operation, in every
+#      weight dtype the class accepts, with broadcasting operands - the result may not depend on what sits under the mask
+# =====================================================================================================
+API_GARBAGE = [float("nan"), float("inf"), float("-inf"), 1e30, -1e30, 3.4028234663852886e38, 2e19, 0.83, -7.0, 0.0, 1e-40]
+
+
+def api_ops(env, shape):
+    """[(name, function(x: WeightedTensor, aux) -> result, expected weights: "same" | "expand" | None)]"""
+    torch, WT = env.torch, env.WT
+    ni, nt, nf = shape
+    ops = [
+        ("x[0]", lambda x, a: x[0], None), ("x[:, -1]", lambda x, a: x[:, -1], None), ("x[..., 0]", lambda x, a: x[..., 0], None),
+        ("x[idx]", lambda x, a: x[a["idx"]], None), ("x[boolrows]", lambda x, a: x[a["rows"]], None),
+        ("x.view(-1)", lambda x, a: x.view(-1), None), ("x.view(ni,-1)", lambda x, a: x.view(ni, nt * nf), None),
+        ("x[..., :1].expand", lambda x, a: x[..., :1].expand(ni, nt, 3), None),
+        ("x**2", lambda x, a: x ** 2, "same"), ("x**3", lambda x, a: x ** 3, "same"), ("abs(x)", lambda x, a: abs(x), "same"),
+        ("x.abs()", lambda x, a: x.abs(), "same"), ("-x", lambda x, a: -x, "same"),
+        ("x<c", lambda x, a: x < 0.25, "same"), ("x<=c", lambda x, a: x <= 0.25, "same"), ("x>c", lambda x, a: x > 0.25, "same"),
+        ("x>=c", lambda x, a: x >= 0.25, "same"), ("x==c", lambda x, a: x == 0.5, "same"), ("x!=c", lambda x, a: x != 0.5, "same"),
+        ("x<t", lambda x, a: x < a["full"], "same"),
+        ("c+x", lambda x, a: 1.5 + x, "same"), ("c-x", lambda x, a: 1.5 - x, "same"), ("c*x", lambda x, a: 2.0 * x, "same"),
+        ("c/x", lambda x, a: 1.0 / x, "same"), ("x/c", lambda x, a: x / 4.0, "same"),
+        ("t+x", lambda x, a: a["full"] + x, "same"), ("t-x", lambda x, a: a["full"] - x, "same"), ("t/x", lambda x, a: a["full"] / x, "same"),
+        ("x+0d", lambda x, a: x + a["zero_d"], "same"), ("x*ft", lambda x, a: x * a["per_ft"], "same"),
+        ("x-ind", lambda x, a: x - a["per_ind"], "same"),
+        ("x[..., :1]+t  (weights expand)", lambda x, a: x[..., :1] + a["full"], "expand"),
+        ("x[..., :1]*t  (weights expand)", lambda x, a: x[..., :1] * a["full"], "expand"),
+        ("t - x[:, :1]  (weights expand)", lambda x, a: a["full"] - x[:, :1], "expand1"),
+        ("x+x", lambda x, a: x + x, "same"), ("x*x2", lambda x, a: x * a["x2"](x), "same"),
+        ("filled(0)", lambda x, a: x.filled(0.0), None), ("filled(7/2)", lambda x, a: x.filled(3.5), None),
+        ("weighted_value", lambda x, a: x.weighted_value, None),
+        ("wsum()", lambda x, a: x.wsum(), None), ("wsum(dim=1)", lambda x, a: x.wsum(dim=1), None),
+        ("wsum(dim=(1,2),fill=-1)", lambda x, a: x.wsum(dim=(1, 2), fill_value=-1.0), None),
+        ("sum()", lambda x, a: x.sum(), None), ("sum(dim=0)", lambda x, a: x.sum(dim=0), None),
+        ("sum(dim=-1,keepdim)", lambda x, a: x.sum(dim=-1, keepdim=True), None), ("sum(fill=2,dim=2)", lambda x, a: x.sum(fill_value=2.0, dim=2), None),
+        ("sum_dim(but 0)", lambda x, a: env.sum_dim(x, but_dim=0), None), ("sum_dim(but -1)", lambda x, a: env.sum_dim(x, but_dim=-1), None),
+        ("sum_dim()", lambda x, a: env.sum_dim(x), None), ("sum_dim(but (0,2))", lambda x, a: env.sum_dim(x, but_dim=(0, 2)), None),
+        ("wsum_dim(but 1)", lambda x, a: env.wsum_dim(x, but_dim=1), None),
+        ("wsum_only", lambda x, a: a["wsum_only"](x, but_dim=-1), None), ("weights_only", lambda x, a: a["weights_only"](x, but_dim=0), None),
+        ("index_put", lambda x, a: x.index_put((a["idx"],), a["put"]), "same"),
+        ("index_put(acc)", lambda x, a: x.index_put((a["idx"],), a["put"], accumulate=True), "same"),
+        ("map(exp)", lambda x, a: x.map(torch.exp), "same"), ("map(clamp)", lambda x, a: x.map(torch.clamp, min=-1.0, max=1.0), "same"),
+        ("map_both(flatten)", lambda x, a: x.map_both(torch.Tensor.flatten), None),
+        ("valued", lambda x, a: x.valued(a["full"]), "same"), ("cpu()", lambda x, a: x.cpu(), "same"),
+        ("to(cpu)", lambda x, a: x.to(device=torch.device("cpu")), "same"),
+        ("filled-and-weight", lambda x, a: WT.get_filled_value_and_weight(x, fill_value=0.0), None),
+        ("unary(sq,fill 0)", lambda x, a: env.unary(torch.square, fill_value=0.0)(x), "same"),
+        ("unary(exp)", lambda x, a: env.unary(torch.exp)(x), "same"),
+    ]
+    return ops
+
+
+def api_canon(env, r):
+    """result -> list of (kind, tensor, weight or None)"""
+    torch, WT = env.torch, env.WT
+    if isinstance(r, WT):
+        return [("wt", r.value, r.weight)]
+    if isinstance(r, torch.Tensor):
+        return [("plain", r, None)]
+    if isinstance(r, (tuple, list)):
+        out = []
+        for x in r:
+            out += api_canon(env, x) if x is not None else [("none", None, None)]
+        return out
+    return [("py", torch.tensor(float(r)), None)]
+
+
+def api_same(env, a, b):
+    torch = env.torch
+    if len(a) != len(b):
+        return "number of results"
+    for (ka, va, wa), (kb, vb, wb) in zip(a, b):
+        if ka != kb:
+            return f"kind {ka} vs {kb}"
+        if va is None:
+            continue
+        if va.shape != vb.shape or va.dtype != vb.dtype:
+            return f"shape / dtype {tuple(va.shape)} {va.dtype} vs {tuple(vb.shape)} {vb.dtype}"
+        if (wa is None) != (wb is None):
+            return "weights present / absent"
+        same = nan_same(env, va, vb) if va.dtype != torch.bool else (va == vb)
+        if wa is not None:
+            if wa.shape != wb.shape or not bool((wa == wb).all()):
+                return "weights"
+            same = same | (wa == 0)
+        if not bool(same.all()):
+            i = (~same).nonzero()[0].tolist()
+            return f"value at {i}: {va[tuple(i)].item()!r} vs {vb[tuple(i)].item()!r}"
+    return None
+
+
+def api_part(env, chk):
+    n_cases = 12 if chk.tier == "quick" else 120
+    for ci in range(n_cases):
+        seed = chk.rng.randrange(10 ** 9)
+        try:
+            api_case(env, chk, ci, seed)
+        except Exception as e:  # noqa  (building a weighted tensor of the table failed: a failure, not an infrastructure error)
+            chk.impl_failure({"kind": "api", "op": "<construction>", "ci": ci, "case_seed": seed},
+                             f"WeightedTensor case {ci} could not be built / evaluated: {type(e).__name__}: {str(e)[:200]}")
+
+
+def api_case(env, chk, ci, case_seed, only_op=None):
+    """one random weighted tensor (everything drawn from `case_seed`: a failing case is replayed from (ci, case_seed, op))"""
+    torch, WT = env.torch, env.WT
+    from leaspy.utils.weighted_tensor import wsum_dim_return_sum_of_weights_only, wsum_dim_return_weighted_sum_only
+    rng = random.Random(case_seed)
+    wdtypes = [torch.bool, torch.uint8, torch.int64, torch.float32, torch.float64, "relative"]
+    if True:
+        shape = (rng.randint(2, 3), rng.randint(2, 4), rng.randint(2, 3))
+        ni, nt, nf = shape
+        n = ni * nt * nf
+        vdt = rng.choice([torch.float32, torch.float64])
+        wdt = wdtypes[ci % len(wdtypes)]
+        mask = [rng.random() < 0.6 for _ in range(n)]
+        if ci % 5 == 0:
+            for q in range(nt * nf):          # one individual wholly masked
+                mask[q] = False
+        vals = [rng.randint(-8, 8) / 4 for _ in range(n)]
+        fills = [[rng.choice(API_GARBAGE) for _ in range(n)] for _ in range(2)] + [[g] * n for g in rng.sample(API_GARBAGE, 2)]
+        if wdt == "relative":
+            w = torch.tensor([rng.choice([0.5, 1.0, 2.0, 0.25]) if m else 0.0 for m in mask], dtype=torch.float64).reshape(shape)
+        else:
+            w = torch.tensor([1 if m else 0 for m in mask]).to(wdt).reshape(shape)
+        aux = {"idx": torch.tensor([ni - 1, 0]), "rows": torch.tensor([i % 2 == 0 for i in range(ni)]),
+               "full": torch.tensor([rng.randint(-6, 6) / 2 for _ in range(n)], dtype=vdt).reshape(shape),
+               "zero_d": torch.tensor(0.75, dtype=vdt), "per_ft": torch.tensor([rng.randint(1, 4) / 2 for _ in range(nf)], dtype=vdt),
+               "per_ind": torch.tensor([rng.randint(-4, 4) / 2 for _ in range(ni)], dtype=vdt).reshape(ni, 1, 1),
+               "put": torch.tensor([rng.randint(-4, 4) / 2 for _ in range(2 * nt * nf)], dtype=vdt).reshape(2, nt, nf),
+               "x2": lambda x: WT(x.value * 0.5 + 1.0, x.weight.clone()),
+               "wsum_only": wsum_dim_return_weighted_sum_only, "weights_only": wsum_dim_return_sum_of_weights_only}
+        tm = torch.tensor(mask).reshape(shape)
+
+        def make(fill):
+            v = torch.where(tm, torch.tensor(vals, dtype=vdt).reshape(shape), torch.tensor(fill, dtype=vdt).reshape(shape))
+            return WT(v, w.clone())
+        for name, fn, wexp in api_ops(env, shape):
+            if only_op is not None and name != only_op:
+                continue
+            case = {"kind": "api", "op": name, "ci": ci, "case_seed": case_seed, "shape": list(shape), "value_dtype": str(vdt),
+                    "weight_dtype": str(wdt), "vals": vals, "mask": mask}
+            res = []
+            for fill in fills:
+                try:
+                    res.append(api_canon(env, fn(make(fill), aux)))
+                except Exception as e:  # noqa
+                    res.append(f"err:{type(e).__name__}")
+            r0 = res[0]
+            if isinstance(r0, str):
+                # (every operation of this table is defined for every tensor of the table: a refusal is a failure by itself)
+                chk.impl_failure(dict(case, fills=[f[:6] for f in fills]),
+                                 (f"WeightedTensor `{name}` ({vdt}, weights {wdt}) raises {r0}" if all(r == r0 for r in res) else
+                                  f"WeightedTensor `{name}`: raises or not depending on the values under the mask: {res[:4]}")[:400])
+                chk.tag("api_op", f"{name}:{r0}")
+                chk.case(("api", ci, name), nontrivial=False, tags={"part": "api"})
+                continue
+            for fill, r in zip(fills[1:], res[1:]):
+                why = "raises " + r if isinstance(r, str) else api_same(env, r0, r)
+                if why:
+                    chk.impl_failure(dict(case, fill_a=fills[0][:8], fill_b=fill[:8]),
+                                     f"WeightedTensor `{name}` ({vdt}, weights {wdt}): the result changes when only the values under the mask "
+                                     f"change: {why}"[:500])
+                    break
+            # weights of an elementwise result: those of the operand (expanded to the shape of the result)
+            if wexp and r0[0][0] == "wt":
+                rw = r0[0][2]
+                want = {"same": w, "expand": w[..., :1].expand(shape), "expand1": w[:, :1].expand(shape)}[wexp]
+                if rw is None or rw.shape != r0[0][1].shape or not bool((rw.double() == want.double()).all()):
+                    chk.impl_failure(case, f"WeightedTensor `{name}`: the weights of the result are not the operand's weights (expanded to the result)")
+            # a reduction: the sum is the sum over the cells of non-zero weight (float64 reference, float32 envelope)
+            if name in ("sum()", "sum_dim()") and r0[0][0] in ("plain", "py"):
+                want = float((w.double() * torch.where(tm, torch.tensor(vals, dtype=torch.float64).reshape(shape), torch.zeros(shape, dtype=torch.float64))).sum())
+                got = float(r0[0][1])
+                if not abs(got - want) <= 1e-5 * (1 + abs(want)):
+                    chk.impl_failure(case, f"WeightedTensor `{name}`: {got!r} is not the weighted sum of the unmasked cells {want!r}")
+            chk.tag("api_weight_dtype", str(wdt))
+            chk.case(("api", ci, name), nontrivial=not all(mask), tags={"part": "api"})
+
+
+# =====================================================================================================
 # (B) metamorphic runs on the real code
 # =====================================================================================================
 GARBAGE = [0.0, 1e30, -1e30, float("nan"), float("inf"), float("-inf"), 123.456, -7.0]
+# widened: the largest float32, a value whose square overflows float32 only just (sqrt(3.4e38) = 1.84e19), an ordinary value inside
+# the range of the outcomes, a denormal, minus zero
+GARBAGE_WIDE = GARBAGE + [3.4028234663852886e38, -3.4028234663852886e38, 2e19, 0.83, 1e-40, -0.0, 0.5, 1.0]
 
 
-def gen_case(rng, tier, model, noise):
-    return dict(model=model, noise=noise, n_ind=rng.randint(3, 6), n_ft=rng.choice([2, 2, 3]), src=1,
-                miss=rng.choice([0.15, 0.3, 0.45]), data_seed=rng.randrange(10 ** 6), seed=rng.randrange(1000),
-                whole_visit=rng.random() < 0.6, n_iter=rng.randint(2, 4), n_burn=rng.randint(0, 2),
-                var_seed=rng.randrange(10 ** 6))
+def gen_case(rng, tier, model, noise, **over):
+    c = dict(model=model, noise=noise, n_ind=rng.randint(3, 6), n_ft=rng.choice([2, 2, 3]), src=1,
+             miss=rng.choice([0.15, 0.3, 0.45]), data_seed=rng.randrange(10 ** 6), seed=rng.randrange(1000),
+             whole_visit=rng.random() < 0.6, n_iter=rng.randint(2, 4), n_burn=rng.randint(0, 2),
+             var_seed=rng.randrange(10 ** 6))
+    c.update(over)
+    return c
+
+
+def model_kw(case):
+    kw = dict(dimension=case["n_ft"], source_dimension=case["src"])
+    if case["noise"] in ("scalar", "diagonal"):
+        kw["obs_models"] = "gaussian-" + case["noise"]
+    elif case["noise"] == "bernoulli":
+        kw["obs_models"] = "bernoulli"
+    if case["model"] == "mixture_logistic":
+        kw["n_clusters"] = case.get("n_clusters", 2)
+    return kw
+
+
+def table_to_dataset(env, case, df):
+    if case["model"] == "joint":
+        data = env.Data.from_dataframe(df, "joint", drop_full_nan=False)
+    else:
+        data = env.Data.from_dataframe(df, drop_full_nan=False)
+    return env.Dataset(data)
 
 
 def build_dataset(env, case):
@@ -422,29 +626,22 @@ def build_dataset(env, case):
     if case["noise"] == "bernoulli":
         for f in fts:
             df[f] = (df[f] > df[f].median()).astype(float).where(df[f].notna())
-    if case["model"] == "joint":
-        data = env.Data.from_dataframe(df, "joint", drop_full_nan=False)
-    else:
-        data = env.Data.from_dataframe(df, drop_full_nan=False)
-    dataset = env.Dataset(data)
-    name = case["model"]
-    kw = dict(dimension=case["n_ft"], source_dimension=case["src"])
-    if case["noise"] in ("scalar", "diagonal"):
-        kw["obs_models"] = "gaussian-" + case["noise"]
-    elif case["noise"] == "bernoulli":
-        kw["obs_models"] = "bernoulli"
-    model = env.model_factory(name, **kw)
+    dataset = table_to_dataset(env, case, df)
+    model = env.model_factory(case["model"], **model_kw(case))
     model.initialize(dataset)
     n_nonnan = int(df[fts].notna().sum().sum())
     return df, dataset, model, n_nonnan
 
 
-def variant(env, D, kind, rng, t_whole=True):
+def variant(env, D, kind, rng, t_whole=True, garbage=None, uniform=None, pad=None):
     """D' : garbage under the masks ('fill'), extra padded visits ('pad'), or both.
-    `t_whole=False`: the times of existing visits whose features are all missing are kept (only padding slots get garbage)."""
+    `t_whole=False`: the times of existing visits whose features are all missing are kept (only padding slots get garbage).
+    `garbage`: the pool of values (default GARBAGE); `uniform`: one value for every masked position; `pad`: the number of extra
+    visits (default 1-5)."""
     torch = env.torch
     Dp = copy.deepcopy(D)
-    pad = rng.randint(1, 5) if kind in ("pad", "both") else 0
+    if pad is None:
+        pad = rng.randint(1, 5) if kind in ("pad", "both") else 0
     if pad:
         ni, nv, nf = Dp.values.shape
         Dp.values = torch.cat([Dp.values, torch.zeros(ni, pad, nf)], dim=1)
@@ -452,7 +649,7 @@ def variant(env, D, kind, rng, t_whole=True):
         Dp.timepoints = torch.cat([Dp.timepoints, torch.zeros(ni, pad)], dim=1)
         Dp.n_visits_max = nv + pad
     if kind in ("fill", "both"):
-        g = [x for x in GARBAGE]
+        g = [x for x in (garbage or GARBAGE)] if uniform is None else [uniform]
         mv = (Dp.mask == 0)
         garb = torch.tensor([rng.choice(g) for _ in range(Dp.values.numel())], dtype=torch.float32).reshape(Dp.values.shape)
         Dp.values = torch.where(mv, garb, Dp.values)
@@ -464,13 +661,30 @@ def variant(env, D, kind, rng, t_whole=True):
     return Dp, pad
 
 
+def put_latents(env, case, model, st, D):
+    """The individual variables of the state: a seeded draw from the prior (historical).  Mixture model: sampling its prior
+    fails for some shapes (torch MixtureSameFamily), so fixed seeded values are assigned - they depend on the seed and the number of
+    individuals only, never on what the dataset holds."""
+    torch = env.torch
+    n = D.n_individuals
+    if case["model"] != "mixture_logistic":
+        torch.manual_seed(case["seed"])
+        st.put_individual_latent_variables(env.LVInit.PRIOR_SAMPLES, n_individuals=n)
+        return
+    g = torch.Generator().manual_seed(case["seed"])
+    with st.auto_fork(None):
+        for k in st.dag.sorted_variables_by_type[env.IndLV]:
+            d = case["src"] if k == "sources" else 1
+            z = torch.randn((n, d), generator=g)
+            st[k] = (70 + 4 * z) if k == "tau" else (0.4 * z if k == "xi" else z)
+
+
 def observables(env, case, model, D, nv_real):
     """state-level quantities for dataset D from a clone of the initialised model state (fixed latent draw)."""
     torch, WT = env.torch, env.WT
     st = model.state.clone(disable_auto_fork=True)
     model.put_data_variables(st, D)
-    torch.manual_seed(case["seed"])
-    st.put_individual_latent_variables(env.LVInit.PRIOR_SAMPLES, n_individuals=D.n_individuals)
+    put_latents(env, case, model, st, D)
     obs = {}
     attach_ind = [k for k in st.dag if k.startswith("nll_attach") and k.endswith("_ind")]
     for k in attach_ind + [k for k in ("nll_attach", "nll_attach_y", "nll_attach_event", "nll_regul_ind_sum") if k in st.dag]:
@@ -522,7 +736,9 @@ def tens_val(env, v):
     return (v.weighted_value if isinstance(v, env.WT) else v).detach().clone()
 
 
-def compare_obs(env, chk, cj, base, other, bitwise, what):
+def compare_obs(env, chk, cj, base, other, bitwise, what, extra_scale=None):
+    """`extra_scale` (optional, name -> tensor): magnitude of the summed terms when it exceeds the magnitude of the sums themselves
+    (terms of both signs), added to the base of the relative envelope."""
     torch = env.torch
     for k, a in base.items():
         if k.startswith("_"):
@@ -546,10 +762,207 @@ def compare_obs(env, chk, cj, base, other, bitwise, what):
         else:
             fin = a64[torch.isfinite(a64)]      # a nan / inf present on BOTH sides (same position) must not poison the envelope
             scale = fin.abs().max() if fin.numel() else torch.zeros((), dtype=torch.float64)
+            if extra_scale is not None and k in extra_scale:
+                scale = scale + extra_scale[k].double()
             ok = bool((same | ((a64 - b64).abs() <= 2e-5 * (a64.abs() + scale) + 1e-30)).all())
         if not ok:
             d = float(torch.nan_to_num((a64 - b64).abs(), nan=0.0).max())
             chk.impl_failure(cj, f"{what}: '{k}' differs (max abs diff {d:.3g}; original {a64.reshape(-1)[:3].tolist()}, modified {b64.reshape(-1)[:3].tolist()})")
+
+
+# ----------------------------------------------------------------------------------------------------- widened clauses of (B)
+UNIFORM_FILLS = [float("nan"), float("inf"), float("-inf"), 3.4028234663852886e38, 2e19, -1e30, 0.83, 1e-40]
+
+
+def check_dataset_against_table(env, chk, cj, df, D):
+    """The premise of everything else, recomputed from the table (never trust the mask the implementation computed): per
+    individual (order of appearance) and visit (ascending age), `mask` is 1 exactly on the non-missing cells, `values` holds the
+    float32 of the cell there and 0 elsewhere, `timepoints` the ages, and everything beyond an individual's visits is 0."""
+    torch, np = env.torch, env.np
+    fts = [c for c in df.columns if c.startswith("Y")]
+    ids = list(dict.fromkeys(df["ID"].tolist()))
+    if [str(i) for i in D.indices] != [str(i) for i in ids]:
+        chk.impl_failure(cj, f"Dataset.indices {D.indices[:4]} are not the individuals of the table in their order {ids[:4]}")
+        return
+    nv_max = max(int((df["ID"] == i).sum()) for i in ids)
+    want_v = np.zeros((len(ids), nv_max, len(fts)), dtype=np.float32)
+    want_m = np.zeros_like(want_v)
+    want_t = np.zeros((len(ids), nv_max), dtype=np.float32)
+    nvs = []
+    for a, i in enumerate(ids):
+        rows = df[df["ID"] == i].sort_values("TIME")
+        nvs.append(len(rows))
+        x = rows[fts].to_numpy(dtype=float)
+        want_m[a, :len(rows)] = ~np.isnan(x)
+        want_v[a, :len(rows)] = np.nan_to_num(x, nan=0.0).astype(np.float32)
+        want_t[a, :len(rows)] = rows["TIME"].to_numpy(dtype=float).astype(np.float32)
+    if list(D.n_visits_per_individual) != nvs:
+        chk.impl_failure(cj, f"Dataset.n_visits_per_individual {list(D.n_visits_per_individual)} != visits per individual of the table {nvs}")
+        return
+    for name, got, want in (("mask", D.mask, want_m), ("values", D.values, want_v), ("timepoints", D.timepoints, want_t)):
+        g = got.numpy()
+        if g.shape != want.shape or not bool((g == want).all()):
+            where = "shape" if g.shape != want.shape else str(np.argwhere(g != want)[0].tolist())
+            chk.impl_failure(cj, f"Dataset.{name} differs from the table at {where}: mask must be 1 exactly on the present cells, values / "
+                                 f"times zero-filled elsewhere")
+    chk.tag("dataset_vs_table", "checked")
+
+
+def frames_equal(env, a, b):
+    if list(a.columns) != list(b.columns) or len(a) != len(b) or not a.index.equals(b.index):
+        return False
+    x, y = a.to_numpy(dtype=float), b.to_numpy(dtype=float)
+    return bool(((x == y) | (env.np.isnan(x) & env.np.isnan(y))).all())
+
+
+def check_exports(env, chk, cj, D, Dp, what):
+    """What the Dataset hands out per individual / as a table (the way scipy_minimize and the joint initialisation read it) does
+    not show what is stored under the mask nor the padding."""
+    torch = env.torch
+    try:
+        if not frames_equal(env, D.to_pandas(), Dp.to_pandas()):
+            chk.impl_failure(cj, f"{what}: Dataset.to_pandas() differs between the dataset and its copy (masked content or padding exported)")
+        for i in range(D.n_individuals):
+            a, b = D.get_values_patient(i), Dp.get_values_patient(i)
+            if a.shape != b.shape or not bool(nan_same(env, a, b).all()):
+                chk.impl_failure(cj, f"{what}: Dataset.get_values_patient({i}) differs ({b.reshape(-1)[:4].tolist()} vs {a.reshape(-1)[:4].tolist()})")
+                break
+            if not torch.equal(D.get_times_patient(i), Dp.get_times_patient(i)):
+                chk.impl_failure(cj, f"{what}: Dataset.get_times_patient({i}) differs")
+                break
+        chk.tag("exports", "checked")
+    except Exception as e:  # noqa
+        chk.impl_failure(cj, f"{what}: exporting the modified dataset raises {err_class(e)}: {str(e)[:160]}")
+
+
+def per_individual(env, case, model, D, lat=None, rows=None):
+    """Per-individual quantities of dataset D for GIVEN latent values (`lat`: name -> tensor over the individuals of the full
+    cohort, `rows`: the positions of D's individuals in it); without `lat`: a seeded prior draw, returned for re-use."""
+    torch, WT = env.torch, env.WT
+    st = model.state.clone(disable_auto_fork=True)
+    model.put_data_variables(st, D)
+    if lat is None:
+        put_latents(env, case, model, st, D)
+        lat = {k: st[k].detach().clone() for k in st.dag.sorted_variables_by_type[env.IndLV]}
+    else:
+        with st.auto_fork(None):
+            for k, v in lat.items():
+                st[k] = v[rows].clone()
+    out = {}
+    for k in [k for k in st.dag if k.startswith("nll_attach") and k.endswith("_ind")] + ["nll_regul_ind_sum_ind"]:
+        if k in st.dag:
+            out[k] = tens_val(env, st[k])
+    m = st["model"]
+    out["model"] = (m.weighted_value if isinstance(m, WT) else m).detach().clone()
+    return out, lat
+
+
+def check_less_padding(env, chk, cj, case, model, df, D, rng, n_single, n_subsets):
+    """The padding REMOVED: an individual evaluated alone (a Dataset of his own visits, no padding at all) or in a sub-cohort
+    that needs less padding gives the same individual terms and the same trajectory at his real visits as in the batch."""
+    torch = env.torch
+    ids = list(dict.fromkeys(df["ID"].tolist()))
+    try:
+        with core.quiet():
+            base, lat = per_individual(env, case, model, D)
+    except Exception as e:  # noqa
+        chk.tag("less_padding", f"skipped:{type(e).__name__}")
+        return
+    nvs = list(D.n_visits_per_individual)
+    longest = max(range(len(ids)), key=lambda i: nvs[i])
+    # an individual's attachment term sums terms of both signs (0.5 z^2 >= 0 and log(noise_std) < 0, log-hazards ...): the
+    # rounding of a re-ordered float32 sum is relative to the sum of their magnitudes, bounded here per individual by
+    # (number of observed cells) * (max |log noise_std| + 1) (+ 20 for the event term of the joint model)
+    try:
+        ns = model.state["noise_std"].double().abs().log().abs().max() if "noise_std" in model.state.dag else torch.zeros(())
+    except Exception:  # noqa
+        ns = torch.zeros(())
+    cells = (D.mask > 0).double().sum(dim=(1, 2))
+    term_mag = cells * (ns + 1.0) + (20.0 if case["model"] == "joint" else 0.0)
+    subsets = [[i] for i in rng.sample(range(len(ids)), min(n_single, len(ids)))]
+    for _ in range(n_subsets):
+        pool = [i for i in range(len(ids)) if i != longest]
+        if len(pool) >= 2:
+            subsets.append(sorted(rng.sample(pool, rng.randint(2, len(pool)))))
+    for rows in subsets:
+        cjs = dict(cj, variant="less-padding", individuals=[ids[i] for i in rows])
+        try:
+            with core.quiet():
+                sub_df = df[df["ID"].isin([ids[i] for i in rows])].reset_index(drop=True)
+                Ds = table_to_dataset(env, case, sub_df)
+                oth, _ = per_individual(env, case, model, Ds, lat=lat, rows=rows)
+        except Exception as e:  # noqa
+            if case["model"] == "joint" and err_class(e) == "err:data" and not bool((sub_df["EVENT_BOOL"] != 0).any()):
+                chk.tag("less_padding", "refused:no-observed-event-in-the-sub-cohort")   # announced by the reader of the joint layout
+                continue
+            chk.impl_failure(cjs, f"evaluating the individuals {cjs['individuals']} on their own raises {err_class(e)}: {str(e)[:160]}")
+            continue
+        for k, a in base.items():
+            b = oth.get(k)
+            if b is None:
+                continue
+            a = a[rows]
+            if k == "model":
+                nv = min(a.shape[1], b.shape[1])
+                keep = torch.arange(nv)[None, :] < torch.tensor([nvs[i] for i in rows])[:, None]
+                a = torch.where(keep[..., None], a[:, :nv], torch.zeros_like(a[:, :nv]))
+                b = torch.where(keep[..., None], b[:, :nv], torch.zeros_like(b[:, :nv]))
+            compare_obs(env, chk, cjs, {k: a}, {k: b}, bitwise=False,
+                        what=f"[individuals {cjs['individuals']} alone: {Ds.n_visits_max} visits instead of {D.n_visits_max}]",
+                        extra_scale=({k: term_mag[rows].reshape([-1] + [1] * (a.ndim - 1))} if k.startswith("nll_attach") else None))
+        chk.tag("less_padding", "single" if len(rows) == 1 else "sub-cohort")
+
+
+def check_state_reuse(env, chk, cj, case, model, D, variants, base):
+    """ONE state object receiving the datasets one after the other (as a model re-used on another cohort): after the copies with
+    garbage / more padding, the original dataset must give exactly the first results again."""
+    torch = env.torch
+    try:
+        with core.quiet():
+            st = model.state.clone(disable_auto_fork=True)
+            for Dv in variants + [D]:
+                model.put_data_variables(st, Dv)
+                put_latents(env, case, model, st, Dv)
+                for k in st.dag:
+                    if k.startswith("nll_attach") or k in ("n_obs", "n_obs_per_ft", "y_L2", "y_L2_per_ft"):
+                        st[k]
+            got = {k: tens_val(env, st[k]) for k in st.dag if (k.startswith("nll_attach") or k in ("n_obs", "n_obs_per_ft", "y_L2", "y_L2_per_ft"))}
+    except Exception as e:  # noqa
+        chk.impl_failure(dict(cj, variant="state-reuse"), f"re-using one state for several datasets raises {err_class(e)}: {str(e)[:160]}")
+        return
+    sub = {k: v for k, v in base.items() if k in got}
+    compare_obs(env, chk, dict(cj, variant="state-reuse"), sub, got, bitwise=True, what="[one state re-used: dataset, modified copies, dataset again]")
+    chk.tag("state_reuse", "checked")
+
+
+def widened_variants(env, chk, cj, case, model, df, D, base, nv, vr):
+    """More of the quantifier: every kind of fill value alone at every masked position (quick: two of them, thorough: all), the
+    boundary values of float32 mixed in, much more padding, the padding removed, one state re-used."""
+    quick = chk.tier == "quick"
+    plans = [("fill", dict(garbage=GARBAGE_WIDE)), ("both", dict(garbage=GARBAGE_WIDE, pad=vr.choice([8, 17, 40]))),
+             ("pad", dict(pad=vr.choice([6, 23, 64])))]
+    fills = vr.sample(UNIFORM_FILLS, 2) if quick else list(UNIFORM_FILLS)
+    plans += [("fill", dict(uniform=u)) for u in fills]
+    made = []
+    for kind, kw in plans:
+        Dp, pad = variant(env, D, kind, vr, **kw)
+        label = kind + ("=" + repr(kw["uniform"]) if "uniform" in kw else "") + (f"+{pad}" if pad else "")
+        cjv = dict(cj, variant=kind, pad=pad, wide=True, **({"uniform": repr(kw["uniform"])} if "uniform" in kw else {}))
+        try:
+            with core.quiet():
+                oth = observables(env, case, model, Dp, nv)
+        except Exception as e:  # noqa
+            chk.impl_failure(cjv, f"state-level evaluation raises {err_class(e)} with the modified dataset [{label}]: {str(e)[:200]}")
+            continue
+        compare_obs(env, chk, cjv, base, oth, bitwise=(kind == "fill"), what=f"[{label}]")
+        chk.tag("variant_wide", kind + ("-uniform" if "uniform" in kw else ""))
+        made.append(Dp)
+        if len(made) <= 2:
+            # exports: ages of existing visits are data for them, only the padding slots of the ages hold garbage
+            Dq, _ = variant(env, D, kind, vr, t_whole=False, **kw)
+            check_exports(env, chk, cjv, D, Dq, f"[{label}]")
+    check_state_reuse(env, chk, cj, case, model, D, made[:3], base)
+    check_less_padding(env, chk, cj, case, model, df, D, vr, n_single=(2 if quick else 6), n_subsets=(1 if quick else 3))
 
 
 def metamorphic_case(env, chk, case):
@@ -584,6 +997,16 @@ def metamorphic_case(env, chk, case):
     # model is exactly 0 where no feature of the visit is observed (so that unweighted reductions cannot see padding)
     if float(base["model@unobserved_visits.abs.sum"]) != 0.0:
         chk.impl_failure(cj, "model value is not 0 at a visit without any observed feature (padding or wholly missing visit)")
+    # an individual without any observed entry: his longitudinal likelihood term is the empty sum, exactly 0 (not nan, not a fill)
+    empty = ~(D.mask > 0).any(dim=2).any(dim=1)
+    if bool(empty.any()):
+        for k in ("nll_attach_y_ind", "nll_attach_ind"):
+            if k in base and not (case["model"] == "joint" and k == "nll_attach_ind"):
+                v = base[k].double().reshape(D.n_individuals, -1)[empty]
+                if not bool((v == 0).all()):
+                    chk.impl_failure(cj, f"'{k}' of an individual without any observed entry is {v.reshape(-1)[:3].tolist()}, the empty sum is 0")
+                chk.tag("individual_without_observation", k)
+                break
     # noise estimate = RMS residual over observed entries only
     if "_rms2" in base:
         got = base["param[noise_std]"].double().reshape(-1) ** 2
@@ -604,9 +1027,18 @@ def metamorphic_case(env, chk, case):
             continue
         compare_obs(env, chk, cjv, base, oth, bitwise=(kind == "fill"), what=f"[{kind}{'+' + str(pad) if pad else ''}]")
         chk.tag("variant", kind)
+    try:
+        check_dataset_against_table(env, chk, cj, df, D)
+    except Exception as e:  # noqa
+        chk.impl_failure(cj, f"the Dataset could not be compared with its table: {type(e).__name__}: {str(e)[:200]}")
+    try:
+        widened_variants(env, chk, cj, case, model, df, D, base, nv, random.Random(case["var_seed"] + 99))
+    except Exception as e:  # noqa
+        chk.impl_failure(cj, f"widened comparisons raised {err_class(e)}: {type(e).__name__}: {str(e)[:300]}")
     # short real fits and personalisations: garbage under the mask must give bitwise identical results
     try:
-        fit_and_personalize(env, chk, case, cj, D, vr)
+        if case.get("fits", True):
+            fit_and_personalize(env, chk, case, cj, D, vr)
     except Exception as e:  # noqa
         chk.impl_failure(cj, f"fit / personalize comparison raised {err_class(e)}: {str(e)[:300]}")
     chk.case(("meta", case["model"], case["noise"], case["data_seed"], case["var_seed"]),
@@ -629,8 +1061,33 @@ def noise_monitor(env, chk, cj, D):
     yy = torch.where(w > 0, y, torch.zeros_like(y))
 
     def wrapped(self, model, state):
-        mod = state["model"]
-        mod = (mod.weighted_value if isinstance(mod, env.WT) else mod).double()
+        def model_values():
+            m = state["model"]
+            return (m.weighted_value if isinstance(m, env.WT) else m).double()
+        snap = {"mod": model_values()}
+        # the model values AT THE MOMENT THE STATISTICS ARE COLLECTED: collecting them may move the latent values first (re-centring;
+        # the mixture model also re-centres its sources, which changes the model values)
+        orig_css = model.compute_sufficient_statistics
+
+        def css(st, *a, **kw):
+            res = orig_css(st, *a, **kw)
+            if st is state:
+                snap["mod"] = model_values()
+            return res
+        try:
+            model.compute_sufficient_statistics = css
+            hooked = True
+        except Exception:  # noqa
+            hooked = False
+        try:
+            out = orig(self, model, state)
+        finally:
+            if hooked:
+                try:
+                    del model.compute_sufficient_statistics
+                except Exception:  # noqa
+                    pass
+        mod = snap["mod"]
         r = (w * (yy - mod) ** 2)
         mag = (w * (yy ** 2 + 2 * (yy * mod).abs() + mod ** 2))
         k, nb = self.current_iteration, self.algo_parameters["n_burn_in_iter"]
@@ -640,7 +1097,6 @@ def noise_monitor(env, chk, cj, D):
             e = float(k - nb) ** (-self.algo_parameters["burn_in_step_power"])
             mem["R"] = mem["R"] * (1.0 - e) + e * r
             mem["M"] = mem["M"] * (1.0 - e) + e * mag
-        out = orig(self, model, state)
         try:
             if "noise_std" in state.dag and not mem["reported"]:
                 got = state["noise_std"].double().reshape(-1) ** 2
@@ -666,12 +1122,7 @@ def noise_monitor(env, chk, cj, D):
 
 
 def fresh_model(env, case, D):
-    kw = dict(dimension=case["n_ft"], source_dimension=case["src"])
-    if case["noise"] in ("scalar", "diagonal"):
-        kw["obs_models"] = "gaussian-" + case["noise"]
-    elif case["noise"] == "bernoulli":
-        kw["obs_models"] = "bernoulli"
-    m = env.model_factory(case["model"], **kw)
+    m = env.model_factory(case["model"], **model_kw(case))
     m.initialize(D)
     return m
 
@@ -705,6 +1156,8 @@ def fit_and_personalize(env, chk, case, cj, D, vr):
                               ("mean_posterior", dict(seed=0, progress_bar=False, n_iter=12, n_burn_in_iter=6))):
                 if algo != "scipy_minimize" and name == "both":
                     continue  # MCMC decisions may flip when sums are re-ordered by the padding: not comparable
+                if case.get("pers") is not None and algo not in case["pers"]:
+                    continue
                 Dpers = Dv
                 try:
                     with core.quiet():
@@ -780,8 +1233,7 @@ def c06_quantities(env, case, model, D, st=None):
     from leaspy.variables.specs import DataVariable
     st = model.state.clone(disable_auto_fork=True) if st is None else st
     model.put_data_variables(st, D)
-    torch.manual_seed(case["seed"])
-    st.put_individual_latent_variables(env.LVInit.PRIOR_SAMPLES, n_individuals=D.n_individuals)
+    put_latents(env, case, model, st, D)
     dag = st.dag
     roots = {n for n in dag if isinstance(dag[n], DataVariable)}
     names = [n for n in dag if n not in roots and set(dag.sorted_ancestors[n]) & roots]
@@ -828,8 +1280,7 @@ def prepared_state(env, case, model, D, patch_model=None):
     torch = env.torch
     st = model.state.clone(disable_auto_fork=True)
     model.put_data_variables(st, D)
-    torch.manual_seed(case["seed"])
-    st.put_individual_latent_variables(env.LVInit.PRIOR_SAMPLES, n_individuals=D.n_individuals)
+    put_latents(env, case, model, st, D)
     m = st["model"]
     if patch_model is not None:
         m = torch.where(D.mask == 0, patch_model, m)
@@ -1133,6 +1584,19 @@ def taint_part(env, chk, cases):
             chk.disagree(info["case"], "?", resp[:200], f"unparsable taint response ({type(e).__name__}: {str(e)[:80]})")
 
 
+TAINT_WIDE = ("joint-scalar", "mixture", "univariate", "no-source", "two-sources", "feature-missing-for-a-subject", "subject-without-observation", "single-visits")
+
+
+def taint_wide_cases(chk, cases):
+    """the widened classes whose recorded programs are analysed too (one case per class)"""
+    seen, out = set(), []
+    for c in cases:
+        if c.get("cls") in TAINT_WIDE and c["cls"] not in seen:
+            seen.add(c["cls"])
+            out.append(c)
+    return out
+
+
 def meta_cases(chk):
     rng = chk.rng
     combos = [("logistic", "scalar"), ("logistic", "diagonal"), ("linear", "diagonal"), ("linear", "scalar"),
@@ -1142,6 +1606,45 @@ def meta_cases(chk):
     for _ in range(reps):
         for model, noise in combos:
             out.append(gen_case(rng, chk.tier, model, noise))
+    return out + wide_meta_cases(chk)
+
+
+STRIP_KEYS = ("variant", "pad", "table_head", "kind", "fill", "label", "index", "wide", "uniform", "individuals", "iteration", "search", "value")
+
+
+def wide_meta_cases(chk):
+    """Beyond the historical grid: the other model kinds and noise structures (mixture, joint with a common noise, binary outcomes,
+    univariate, no source, several sources), the missing-data patterns the quantifier names (a feature wholly missing for an
+    individual, an individual without any observation, single-visit individuals, a cohort that needs no padding at all)."""
+    rng = chk.rng
+    nonmix = ["logistic", "linear", "shared_speed_logistic"]
+    gens = [
+        lambda: gen_case(rng, chk.tier, "joint", "scalar", cls="joint-scalar"),
+        lambda: gen_case(rng, chk.tier, "mixture_logistic", rng.choice(["diagonal", "scalar"]), n_ft=3, n_ind=rng.randint(6, 8),
+                         src=rng.choice([1, 2]), cls="mixture", **({"pers": ["mode_posterior"]} if chk.tier == "quick" else {})),
+        lambda: gen_case(rng, chk.tier, "logistic", "bernoulli", cls="bernoulli"),
+        # (one case per implementation of the model without sources: logistic / linear share one, shared-speed and joint have theirs)
+        lambda: gen_case(rng, chk.tier, rng.choice(["logistic", "linear"]), "scalar", n_ft=1, src=0, whole_visit=True, nv_min=3, cls="univariate"),
+        lambda: gen_case(rng, chk.tier, "shared_speed_logistic", "scalar", n_ft=1, src=0, whole_visit=True, nv_min=3, cls="univariate", fits=False),
+        lambda: gen_case(rng, chk.tier, "joint", "scalar", n_ft=1, src=0, whole_visit=True, nv_min=3, cls="univariate", fits=(chk.tier != "quick")),
+        lambda: gen_case(rng, chk.tier, rng.choice(["logistic", "linear"]), rng.choice(["scalar", "diagonal"]), n_ft=rng.choice([3, 4]), src=0,
+                         cls="no-source", fits=False),
+        lambda: gen_case(rng, chk.tier, "shared_speed_logistic", rng.choice(["scalar", "diagonal"]), n_ft=rng.choice([2, 3]), src=0,
+                         cls="no-source", fits=False),
+        lambda: gen_case(rng, chk.tier, rng.choice(nonmix), rng.choice(["scalar", "diagonal"]), n_ft=rng.choice([3, 4]), src=2,
+                         cls="two-sources", fits=False),
+        lambda: gen_case(rng, chk.tier, rng.choice(nonmix + ["joint"]), "diagonal", blank=["feature_one", "feature_one"], keep_nan=True,
+                         cls="feature-missing-for-a-subject", fits=(chk.tier != "quick")),
+        lambda: gen_case(rng, chk.tier, rng.choice(nonmix), rng.choice(["scalar", "diagonal"]), blank=["individual"], keep_nan=True,
+                         n_ind=rng.randint(4, 6), cls="subject-without-observation", fits=(chk.tier != "quick")),
+        lambda: gen_case(rng, chk.tier, rng.choice(nonmix), rng.choice(["scalar", "diagonal"]), nv_min=1, nv_max=3, n_ind=rng.randint(4, 7),
+                         whole_visit=False, cls="single-visits", fits=False),
+        lambda: gen_case(rng, chk.tier, rng.choice(nonmix), rng.choice(["scalar", "diagonal"]), nv_min=3, nv_max=3, whole_visit=False,
+                         cls="no-padding-needed", fits=False),
+    ]
+    out = []
+    for _ in range(1 if chk.tier == "quick" else 4):
+        out += [g() for g in gens]
     return out
 
 
@@ -1152,13 +1655,26 @@ def run(chk: core.Check):
                 "compositions of depth <= 4, and wsum_dim with random fill values, evaluated with the real WeightedTensor code and the "
                 "Lean model, compared exactly; (B) generated cohorts (3-6 subjects, 2-5 visits, 2-3 features, missing cells, whole "
                 "missing visits) per model kind: dataset vs copies with garbage under the mask / 1-5 extra padded visits. Non-trivial: "
-                "at least one masked cell; distinct by configuration.")
+                "at least one masked cell; distinct by configuration. Widened: (A2) every other public operation of WeightedTensor "
+                "(indexing, view / expand, powers, abs, comparisons, reflected operators, broadcasting operands whose weights must be "
+                "expanded, filled / weighted_value / wsum / sum / sum_dim / wsum_dim with dims and fill values, index_put, map, valued, "
+                "cpu / to) on float32 and float64 tensors with weights of dtype bool / uint8 / int64 / float32 / float64 and relative "
+                "(non 0/1) weights: four fillings of the masked cells (two random, two uniform) must give the same result, the weights "
+                "of an elementwise result are the operand's; (B) also mixture, joint with a common noise, binary outcomes, univariate "
+                "(one case per implementation of the model without sources), no source, two sources, a feature wholly missing for a "
+                "subject, a subject without any observation (whose term must be the empty sum 0), single-visit subjects, a cohort "
+                "that needs no padding; per case: the Dataset tensors recomputed from the table, fill values at the edge of float32 "
+                "(largest float32, 2e19 whose square just overflows, a denormal, -0.0, values inside the outcome range), each kind of "
+                "fill alone at every masked position, 6-64 extra padded visits, the padding REMOVED (single individuals and "
+                "sub-cohorts evaluated on their own with the same latent values), one state re-used for the dataset, its copies and the "
+                "dataset again, what the Dataset exports (to_pandas, values / ages of an individual).")
     tensor_part(env, chk)
+    api_part(env, chk)
     corpus = [c for c in core.load_corpus(PROP) if isinstance(c, dict) and c.get("model")]
-    cases = [{k: v for k, v in case.items() if k not in ("variant", "pad", "table_head", "kind", "fill", "label", "index")}
-             for case in corpus + meta_cases(chk)]
+    cases = [{k: v for k, v in case.items() if k not in STRIP_KEYS} for case in corpus + meta_cases(chk)]
     bern = gen_case(random.Random(707), "quick", "logistic", "bernoulli")
-    taint_part(env, chk, (cases if chk.tier == "quick" else cases[: 1 + 3 * 6]) + [bern])
+    hist = [c for c in cases if "cls" not in c]
+    taint_part(env, chk, (hist if chk.tier == "quick" else hist[: 1 + 3 * 6]) + [bern] + taint_wide_cases(chk, cases))
     f31_probe(env, chk, bern)
     for case in cases:
         metamorphic_case(env, chk, case)
@@ -1220,8 +1736,12 @@ def replay(chk: core.Check, payload):
         chk.model([f"wsum fill={case['fill']} keys={core.fmt_list(k)} n={n} vals={core.fmt_list(case['vals'])} w={''.join('1' if b else '0' for b in case['mask'])}"])
         chk.case(("wsum-replay",), sample=case)
         return
+    if case.get("kind") == "api":
+        api_case(env, chk, case.get("ci", 0), case["case_seed"], only_op=case["op"])
+        chk.model(["wsum fill=0 keys=0 n=1 vals=1 w=1"])
+        return
     is_taint = case.get("kind") == "taint"
-    case = {k: v for k, v in case.items() if k not in ("variant", "pad", "table_head", "kind", "fill", "label", "index")}
+    case = {k: v for k, v in case.items() if k not in STRIP_KEYS}
     if is_taint:
         taint_part(env, chk, [case])
         return
